@@ -134,6 +134,64 @@ func genResync(r *vh.Rng) jobctl.History {
 	return h
 }
 
+// ---------- a job-level kill bumps the job version; the old pods' delete events come AFTER the bump ----------
+// A Running job with all its replicas (pods of job version v); a RestartJob command (or AbortJob, later
+// ResumeJob) kills them and bumps the version; the pods' updates are delivered, the pods go away and only
+// THEN their delete events reach the controller (through the real deletePod handler, carrying the old
+// job-version annotation); then the job is reconciled until it is Running again with an admitted PodGroup:
+// exactly one pod per replica index.
+func genVersionBump(r *vh.Rng) jobctl.History {
+	var s jobctl.Spec
+	nt := r.Range(1, 2)
+	for i := 0; i < nt; i++ {
+		t := jobctl.Task{Name: int64(vh.Pick(r, []int{4, 8})) - int64(i), Replicas: int64(r.Range(1, 2)), Cpu: 100}
+		s.Tasks = append(s.Tasks, t)
+		s.Min += t.Replicas
+	}
+	s.MaxRetry = 3
+	h := jobctl.History{Spec: s, Status: jobctl.Status{Phase: 4, Version: int64(r.Intn(2)), Min: s.Min, TscNil: true}, Pg: i64p(3)}
+	for _, t := range s.Tasks {
+		for i := int64(0); i < t.Replicas; i++ {
+			h.Pods = append(h.Pods, jobctl.Pod{Task: t.Name, Idx: i, Phase: 1})
+			h.Status.C[1]++
+		}
+	}
+	cmd := func(a int64) jobctl.Op {
+		return jobctl.Op{Code: 1, Req: jobctl.Req{Event: 9, Action: i64p(a), UidMatch: 1, Version: h.Status.Version + 5}}
+	}
+	deliver := []jobctl.Op{{Code: 7}, {Code: 8}, {Code: 6}}
+	abort := r.Chance(1, 3)
+	if abort {
+		h.Ops = append(h.Ops, cmd(1)) // AbortJob
+	} else {
+		h.Ops = append(h.Ops, cmd(2)) // RestartJob
+	}
+	if r.Chance(2, 3) {
+		h.Ops = append(h.Ops, deliver...) // the pods' deletion timestamps are seen first
+	}
+	for _, p := range h.Pods {
+		h.Ops = append(h.Ops, jobctl.Op{Code: 4, T: p.Task, I: p.Idx}) // the pods go away
+	}
+	h.Ops = append(h.Ops, deliver...) // ... and their delete events arrive after the version bump
+	h.Ops = append(h.Ops, syncReq())
+	h.Ops = append(h.Ops, deliver...)
+	if abort {
+		h.Ops = append(h.Ops, cmd(8)) // ResumeJob
+		h.Ops = append(h.Ops, deliver...)
+		h.Ops = append(h.Ops, syncReq())
+		h.Ops = append(h.Ops, deliver...)
+	}
+	// the Pending job gets its PodGroup back; the scheduler admits it; the pods are created
+	h.Ops = append(h.Ops, syncReq())
+	h.Ops = append(h.Ops, deliver...)
+	h.Ops = append(h.Ops, jobctl.Op{Code: 5, Ph: 3}, jobctl.Op{Code: 8})
+	for k := 0; k < 2; k++ {
+		h.Ops = append(h.Ops, syncReq())
+		h.Ops = append(h.Ops, deliver...)
+	}
+	return h
+}
+
 func genHistory(r *vh.Rng, stream string) jobctl.History {
 	s := genSpec(r, stream == "deps")
 	h := jobctl.History{Spec: s, Status: jobctl.Status{Phase: int64(vh.Pick(r, []int{1, 1, 4, 0})), Min: s.Min, TscNil: true}}
@@ -330,6 +388,15 @@ func gen(rng *vh.Rng, n int, emit func(id string, sel int, in []int64, kind stri
 		w := &jobctl.W{}
 		w.History(h)
 		emit(fmt.Sprintf("hist-resync-%d", i), 1, w.T, "history/resync", true,
+			map[string]any{"tasks": len(h.Spec.Tasks), "initial_pods": len(h.Pods), "ops": len(h.Ops)})
+	}
+	// old pods' delete events delivered after the kill bumped the job version
+	for i := 0; i < n/4+1; i++ {
+		r := rng.Fork()
+		h := genVersionBump(r)
+		w := &jobctl.W{}
+		w.History(h)
+		emit(fmt.Sprintf("hist-versionbump-%d", i), 1, w.T, "history/versionbump", true,
 			map[string]any{"tasks": len(h.Spec.Tasks), "initial_pods": len(h.Pods), "ops": len(h.Ops)})
 	}
 }
